@@ -77,15 +77,29 @@ impl Prop for C17Prop {
             large_pct: 30,
             n_small: (2, 12),
             n_large: (21, 36),
-            regimes: vec![WeightRegime::AllNan, WeightRegime::AllNan, WeightRegime::SmallInt, WeightRegime::Dyadic, WeightRegime::Nasty, WeightRegime::FineDyadic],
+            regimes: vec![WeightRegime::AllNan, WeightRegime::AllNan, WeightRegime::SmallInt, WeightRegime::Dyadic, WeightRegime::Nasty, WeightRegime::FineDyadic, WeightRegime::Overflowing],
             kinds: AlgoGen::all_kinds(),
-            shapes: Some(vec![Shape::Path, Shape::Cycle, Shape::Cycle, Shape::Union, Shape::Union, Shape::Bipartite, Shape::Grid, Shape::Cliques, Shape::Star, Shape::Gnp, Shape::GradedHub]),
+            shapes: Some(vec![Shape::Path, Shape::Cycle, Shape::Cycle, Shape::Union, Shape::Union, Shape::Bipartite, Shape::Grid, Shape::Cliques, Shape::Star, Shape::Gnp, Shape::GradedHub, Shape::Circulant]),
             lifecycle_pct: 15,
             keyings: 1,
             boundary_per_mille: 0,
             huge_one_in: 600,
+            hub_one_in: 0,
         }
         .gen("C17", seed, idx);
+        {
+            let mut sr = Rng::new(seed, "config.special");
+            if sr.chance(1, 40) {
+                // regular graphs with more than a thousand edges (every node order gives the same degree profile)
+                let (d, _, l) = gen::kind_from(idx as usize % 8);
+                let mut wr = Rng::new(seed, "workload.regular");
+                let regime = *wr.pick(&[WeightRegime::AllNan, WeightRegime::AllNan, WeightRegime::SmallInt]);
+                let (specs, ops) = gen::gen_graph(&mut wr, &gen::GraphOpts { directed: d, multi: false, self_loops: l, n_min: 128, n_max: 220, regime, shape: Some(Shape::Circulant), sprinkle: false });
+                case.specs = specs;
+                case.ops = ops;
+                case.params.put("source", J::s("regular graph with more than 1000 edges"));
+            }
+        }
         let mut rng = Rng::new(seed, "c17.args");
         // boundary seeds matter: 0 and u64::MAX are as much "a seed supplied" as any other
         let bseed = |rng: &mut Rng, m: u64| -> u64 {
@@ -126,7 +140,29 @@ impl Prop for C17Prop {
             // with unit or dyadic weights every sum inside Louvain is exact whatever the summation order, so a
             // difference can only come from an order-dependent decision; with other weights it can also come from
             // rounding of sums accumulated in hash order (a recorded finding, see known_findings.json)
-            let wclass = if !a.weighted || crate::oracle::dist::weights_exact(snap) { "exactly summable weights" } else { "inexactly summable weights" };
+            let overflowing = a.weighted && !(2.0 * snap.edges.iter().map(|e| e.2.abs()).sum::<f64>()).powi(2).is_finite();
+            let wclass = if !a.weighted || crate::oracle::dist::weights_exact(snap) {
+                "exactly summable weights"
+            } else if overflowing {
+                // sums or products of the weights leave the range of f64: not the rounding of finite sums
+                "overflowing weights"
+            } else {
+                "inexactly summable weights"
+            };
+            if env.sched % 2 == 1 {
+                // what ran on this thread before: the same calls on the same graph declared in another node order,
+                // and a search that stops early at a target. Only some environments do this, so a result that
+                // depends on it shows up as a difference between environments.
+                if let Some(sib) = algo::sibling(case) {
+                    let _ = rt::call("louvain_partitions(earlier graph)", lb, || louvain::louvain_partitions(&sib, a.weighted, Some(a.resolution), Some(a.threshold), Some(a.seed)).is_ok());
+                    let names = &snap.names;
+                    if names.len() >= 2 {
+                        let (s0, t0) = (names[0].clone(), names[names.len() / 2].clone());
+                        let _ = rt::call("single_source(earlier graph, target)", budget, || graphrs::algorithms::shortest_path::dijkstra::single_source(&sib, false, s0.clone(), Some(t0.clone()), None, true, true).is_ok());
+                    }
+                    cx.count("probe.earlier_calls_on_a_sibling_graph");
+                }
+            }
             cx.emit("meta:louvain_weights", wclass.to_string());
             let mut first: Option<Vec<Level>> = None;
             for rep in 0..2 {
@@ -194,7 +230,10 @@ impl Prop for C17Prop {
                 }
             };
         }
-        let w = !snap.edges.is_empty() && snap.weighted() && algo::all_positive(snap);
+        // weights whose sums overflow are given to Louvain only: path lengths that reach +inf absorb every further
+        // edge, i.e. the graph then has zero-length cycles, for which no property promises anything (App. E 14/15)
+        let sums_overflow = !(2.0 * snap.edges.iter().map(|e| e.2.abs()).sum::<f64>()).powi(2).is_finite();
+        let w = !snap.edges.is_empty() && snap.weighted() && algo::all_positive(snap) && !sums_overflow;
         f!("betweenness", "betweenness_centrality", betweenness::betweenness_centrality(g, w, true));
         f!("closeness", "closeness_centrality", closeness::closeness_centrality(g, w, true));
         if !snap.multi {
@@ -286,7 +325,7 @@ impl Prop for C17Prop {
         out
     }
     fn rule(&self) -> String {
-        "tie-rich graphs (paths, cycles, unions of equal components, complete-ish bipartite, grids, cliques, stars, G(n,p); all 8 kinds; n <= 36) and fast_gnp_random_graph(n <= 300, p, directed/undirected, Some(seed)); the same call is made under 8 (quick) / 24 (thorough) environments = hash keyings x simulated pool sizes 1-16, and twice in one thread; Louvain results compared as lists of sets of sets, generator results as (node list, sorted edge list), non-randomised algorithms (betweenness, closeness, clustering, eigenvector, all_pairs distances, components, degrees, BFS as first element + set): discrete results exactly, floats at 1e-9. distinct_nontrivial = distinct (graph, arguments) compared across >= 2 environments; one case in 600 is a dense graph (1-3 blocks, 60-300 nodes) with 2 100 - 12 500 stored edges under a pool of 2-16 workers (strategy thresholds); weights also 1 + k 2^-j; shape 'hub joined to 3-5 identical parts by spokes graded in steps of 2^-41..2^-35 or one ulp' (candidates nearly but not exactly tied)".into()
+        "tie-rich graphs (paths, cycles, unions of equal components, complete-ish bipartite, grids, cliques, stars, G(n,p); all 8 kinds; n <= 36) and fast_gnp_random_graph(n <= 300, p, directed/undirected, Some(seed)); the same call is made under 8 (quick) / 24 (thorough) environments = hash keyings x simulated pool sizes 1-16, and twice in one thread; Louvain results compared as lists of sets of sets, generator results as (node list, sorted edge list), non-randomised algorithms (betweenness, closeness, clustering, eigenvector, all_pairs distances, components, degrees, BFS as first element + set): discrete results exactly, floats at 1e-9. distinct_nontrivial = distinct (graph, arguments) compared across >= 2 environments; one case in 600 is a dense graph (1-3 blocks, 60-300 nodes) with 2 100 - 12 500 stored edges under a pool of 2-16 workers (strategy thresholds); weights also 1 + k 2^-j; shape 'hub joined to 3-5 identical parts by spokes graded in steps of 2^-41..2^-35 or one ulp' (candidates nearly but not exactly tied); one case in 40 is a circulant (regular) graph of 128-220 nodes with up to 1 980 edges; weights also with overflowing sums (Louvain only); in half of the environments the same Louvain call and a search that stops at a target run first on the same graph declared in another node order, so a result that depends on what ran on the thread before differs between environments".into()
     }
     fn assumptions(&self) -> Vec<String> {
         vec!["fresh processes are covered by the determinism proof (tools/determinism.sh): run fingerprints, which include every output, are compared across separate processes and worker counts".into(), "seed = None paths are out of scope (OS entropy through a raw syscall the simulator does not own)".into()]
